@@ -121,6 +121,35 @@ theorem readBytes_sim (s : UR) (hv : s.valid) (b r : Bytes) (h : Binary.readByte
   | panic m => simp [hx] at h
   | fuel => simp [hx] at h
 
+theorem checkSize_inv (n : Int) (r : Bytes) (m : Nat) (h : Binary.checkSize n r = .ok m) :
+    0 ≤ n ∧ m = n.toNat ∧ m ≤ r.length := by
+  unfold Binary.checkSize at h
+  split at h
+  · cases h
+  · split at h
+    · simp only [Out.ok.injEq] at h; subst h; exact ⟨by omega, rfl, by assumption⟩
+    · cases h
+
+theorem readI_inS (e : Endian) (w : Nat) (hw : 0 < w) (bs : Bytes) (n : Int) (r : Bytes)
+    (h : Binary.readI e w bs = .ok (n, r)) : inS w n := by
+  unfold Binary.readI at h
+  cases hx : Binary.readU e w bs with
+  | ok p =>
+    simp only [hx, Out.ok.injEq, Prod.mk.injEq] at h
+    rw [← h.1]; exact inS_toS w hw _
+  | err k => simp [hx] at h
+  | panic m => simp [hx] at h
+  | fuel => simp [hx] at h
+
+theorem asUsize_of_nonneg (n : Int) (h0 : 0 ≤ n) (h : inS 4 n) : Binary.asUsize n = n.toNat := by
+  unfold Binary.asUsize toU
+  unfold inS at h
+  have e4 : (256:Nat) ^ 4 = 4294967296 := by decide
+  have e8 : (256:Nat) ^ 8 = 18446744073709551616 := by decide
+  rw [e4] at h; rw [e8]
+  have : n % ((18446744073709551616 : Nat) : Int) = n := Int.emod_eq_of_lt h0 (by omega)
+  rw [this]
+
 theorem readFieldBegin_sim (s : UR) (hv : s.valid) (x : TType × Int) (r : Bytes)
     (h : Binary.readFieldBegin .be s.rest = .ok (x, r)) :
     ∃ s', readFieldBegin s = .ok (x, s') ∧ Good s r s' := by
@@ -161,10 +190,18 @@ theorem readListBegin_sim (s : UR) (hv : s.valid) (x : TType × Nat) (r : Bytes)
     cases hy : Binary.readI .be 4 r1 with
     | ok q =>
       obtain ⟨n, r2⟩ := q
-      simp only [hy, Out.ok.injEq, Prod.mk.injEq] at h
-      obtain ⟨rfl, rfl⟩ := h
-      obtain ⟨s2, h2, g2⟩ := readI_sim s1 g1.valid 4 n r2 (by rw [g1.rest]; exact hy)
-      exact ⟨s2, by simp [readListBegin, h1, h2], g1.trans g2⟩
+      simp only [hy] at h
+      cases hc : Binary.checkSize n r2 with
+      | ok m =>
+        simp only [hc, Out.ok.injEq, Prod.mk.injEq] at h
+        obtain ⟨rfl, rfl⟩ := h
+        obtain ⟨h0, hm, _⟩ := checkSize_inv n r2 m hc
+        have hu := asUsize_of_nonneg n h0 (readI_inS .be 4 (by decide) r1 n r2 hy)
+        obtain ⟨s2, h2, g2⟩ := readI_sim s1 g1.valid 4 n r2 (by rw [g1.rest]; exact hy)
+        exact ⟨s2, by simp [readListBegin, h1, h2, hu, hm], g1.trans g2⟩
+      | err k => simp [hc] at h
+      | panic m => simp [hc] at h
+      | fuel => simp [hc] at h
     | err k => simp [hy] at h
     | panic m => simp [hy] at h
     | fuel => simp [hy] at h
@@ -189,10 +226,18 @@ theorem readMapBegin_sim (s : UR) (hv : s.valid) (x : TType × TType × Nat) (r 
       cases hy : Binary.readI .be 4 r1' with
       | ok q =>
         obtain ⟨n, r2⟩ := q
-        simp only [hy, Out.ok.injEq, Prod.mk.injEq] at h
-        obtain ⟨rfl, rfl⟩ := h
-        obtain ⟨s2, h2, g2⟩ := readI_sim s1' g1'.valid 4 n r2 (by rw [g1'.rest]; exact hy)
-        exact ⟨s2, by simp [readMapBegin, h1, h1', h2], (g1.trans g1').trans g2⟩
+        simp only [hy] at h
+        cases hc : Binary.checkSize n r2 with
+        | ok m =>
+          simp only [hc, Out.ok.injEq, Prod.mk.injEq] at h
+          obtain ⟨rfl, rfl⟩ := h
+          obtain ⟨h0, hm, _⟩ := checkSize_inv n r2 m hc
+          have hu := asUsize_of_nonneg n h0 (readI_inS .be 4 (by decide) r1' n r2 hy)
+          obtain ⟨s2, h2, g2⟩ := readI_sim s1' g1'.valid 4 n r2 (by rw [g1'.rest]; exact hy)
+          exact ⟨s2, by simp [readMapBegin, h1, h1', h2, hu, hm], (g1.trans g1').trans g2⟩
+        | err k => simp [hc] at h
+        | panic m => simp [hc] at h
+        | fuel => simp [hc] at h
       | err k => simp [hy] at h
       | panic m => simp [hy] at h
       | fuel => simp [hy] at h
